@@ -1,4 +1,207 @@
 import Blue.Proofs.ListFree
 import Blue.Proofs.SkipList
-/-! Property C17: the theorems the check builds and audits (spike inventory; the build phase
-    completes the list from DESIGN Appendix C.0). -/
+import Blue.Proofs.SkipIter
+import Blue.Proofs.SkipMLMain
+import Blue.Proofs.SkipLife
+import Blue.Proofs.ListFreeIter
+import Blue.Proofs.ConstsTieC17
+/-! # Property C17 — the lock-free skiplist loses no insert and always iterates in order; an
+    iterator remains valid for as long as it is held; the same for the prepend-only list
+
+Property theorems only (helper lemmas live in `Blue/Proofs/{SkipChain,SkipList,SkipIter,SkipML*,ListFree}.lean`).
+
+* `Blue.SkipML` — `skipfree::SkipList` with all its levels and its iterator: one step per atomic
+  access (`get_next`, `set_next`, `cas_next`) of `insert` (search with recorded predecessors and
+  successors, allocation, per level store / CAS / re-advance on failure), of `find_greater_or_equal`
+  (`seek`, `contains`), `find_less_than` / `find_last` (`prev`) and of the single load of `next` /
+  `seek_to_first`.  `Reach` = any interleaving of any number of threads; an insert may begin with
+  a key that is neither linked nor being inserted (the property's "distinct keys").
+* `Blue.SkipList` — the level-0 part on its own (the search through the upper levels abstracted).
+* `Blue.ListFree` — `listfree::List::prepend`, one step per atomic access.
+* `Blue.SkipLife` — who keeps the nodes alive (the repaired ownership, finding D-4).
+
+**Assumed, not proved**: the atomic accesses of different threads interleave sequentially
+consistently (the code uses `Acquire`/`Release`/`SeqCst`; weak memory is outside the model), and
+memory that has not been released stays valid.  The harness replays every recorded run of the real
+structures through `Blue.SkipML.step` / `Blue.ListFree.step`: every access must be the one the
+model's thread does next, with the outcome the model computes, and every insert must satisfy
+`insertOk` — so each recorded run is a `Reach` run and the theorems below speak about each of its
+states. -/
+namespace Blue.Props.C17
+
+/-! ## skiplist, all levels -/
+section skipml
+open Blue.SkipML
+
+/-- in every reachable state every level's chain from the head is strictly sorted by key, level
+    `l + 1` is a sub-chain of level `l`, level 0 holds exactly the keys whose level-0 CAS has
+    succeeded, and a walk along a level (what a traversal sees) yields exactly its chain -/
+theorem upper_levels_are_subchains {s : St} (h : Reach s) :
+    ∃ ids : Nat → List Nat,
+      (∀ l, l < s.H → chainFrom s.heap l ((ids l).length + 1) (mnext s.heap l 0) = ids l) ∧
+      (∀ l, l < s.H → ((ids l).map (mkey s.heap)).Pairwise (· < ·)) ∧
+      (∀ l n, n ∈ ids (l + 1) → n ∈ ids l) ∧
+      (∀ k, k ∈ s.inserted ↔ k ∈ (ids 0).map (mkey s.heap)) :=
+  Blue.SkipML.upper_levels_are_subchains h
+
+/-- no insert is lost: a key whose `insert` has returned is linked at level 0 … -/
+theorem returned_insert_is_linked {s : St} (h : Reach s) : ∀ k ∈ s.returned, k ∈ s.inserted :=
+  Blue.SkipML.returned_linked h
+
+/-- … and linked keys stay linked whatever step whichever thread takes -/
+theorem linked_stays_linked {s : St} (h : Reach s) (i : Nat) : ∀ k ∈ s.inserted, k ∈ (step s i).inserted :=
+  Blue.SkipML.linked_stays_linked h i
+
+/-- neither assertion in the code (`insert` meeting its own key, `find_less_than` standing on a
+    node not before the key) can fire -/
+theorem no_assertion_fires {s : St} (h : Reach s) (i : Nat) : (th s i).pc ≠ .panicked :=
+  Blue.SkipML.no_panic h i
+
+/-- `iterator_moves`, `seek` / `contains`: the last load of `find_greater_or_equal` returns the
+    node with the smallest linked key `≥ k` (null: every linked key is `< k`), with respect to the
+    keys linked at the time of that load -/
+theorem iterator_moves_seek {s : St} (h : Reach s) (i k x : Nat) (c : Bool) (hpc : (th s i).pc = .geq k x 0 c)
+    (hstop : ∀ n, mnext s.heap 0 x = some n → ¬ mkey s.heap n < k) :
+    (mnext s.heap 0 x = none → ∀ k' ∈ s.inserted, k' < k) ∧
+    (∀ n, mnext s.heap 0 x = some n →
+      mkey s.heap n ∈ s.inserted ∧ k ≤ mkey s.heap n ∧ ∀ k' ∈ s.inserted, k ≤ k' → mkey s.heap n ≤ k') :=
+  seek_lands h i k x c hpc hstop
+
+/-- `iterator_moves`, `next` / `seek_to_first`: the load yields the node with the smallest linked
+    key above the one the iterator is on (`x = 0`: the head), or null if there is none -/
+theorem iterator_moves_next {s : St} (h : Reach s) (i x : Nat) (hpc : (th s i).pc = .nxt x) :
+    (mnext s.heap 0 x = none → ∀ k' ∈ s.inserted, x ≠ 0 ∧ k' ≤ mkey s.heap x) ∧
+    (∀ n, mnext s.heap 0 x = some n →
+      mkey s.heap n ∈ s.inserted ∧ (x ≠ 0 → mkey s.heap x < mkey s.heap n) ∧
+      ∀ k' ∈ s.inserted, (x ≠ 0 ∧ k' ≤ mkey s.heap x) ∨ mkey s.heap n ≤ k') :=
+  next_lands h i x hpc
+
+/-- `iterator_moves`, `prev` from a key: the last load of `find_less_than(k)` returns the node
+    with the largest linked key `< k`, or the head (not valid) if there is none -/
+theorem iterator_moves_prev {s : St} (h : Reach s) (i k x : Nat) (hpc : (th s i).pc = .lt k x 0)
+    (hstop : ∀ n, mnext s.heap 0 x = some n → ¬ mkey s.heap n < k) :
+    (x = 0 → ∀ k' ∈ s.inserted, ¬ k' < k) ∧
+    (x ≠ 0 → mkey s.heap x ∈ s.inserted ∧ mkey s.heap x < k ∧ ∀ k' ∈ s.inserted, k' < k → k' ≤ mkey s.heap x) :=
+  prev_lands h i k x hpc hstop
+
+/-- `iterator_moves`, `prev` from the end: `find_last` returns the node with the largest linked
+    key, or the head if nothing is linked -/
+theorem iterator_moves_last {s : St} (h : Reach s) (i x : Nat) (hpc : (th s i).pc = .last x 0)
+    (hstop : mnext s.heap 0 x = none) :
+    (x = 0 → ∀ k' ∈ s.inserted, False) ∧
+    (x ≠ 0 → mkey s.heap x ∈ s.inserted ∧ ∀ k' ∈ s.inserted, k' ≤ mkey s.heap x) :=
+  last_lands h i x hpc hstop
+
+/-- between operations an iterator points at null, the head, or a linked node -/
+theorem iterator_on_chain {s : St} (h : Reach s) (i x : Nat) (hp : (th s i).pos = some x) :
+    x = 0 ∨ mkey s.heap x ∈ s.inserted :=
+  Blue.SkipML.iterator_on_chain h i x hp
+
+/-- the precondition check of the trace validator is the precondition of `Reach.insert` -/
+theorem insertOk_sound {s : St} {k : Nat} (h : insertOk s k = true) : InsertOk s k :=
+  Blue.SkipML.insertOk_sound h
+
+/-- non-vacuity (`MAX_HEIGHT = 2`): threads 0 and 1 insert 5 (tower of 2) and 3 concurrently while
+    thread 2 seeks 4.  Both inserters read the empty list; thread 1 links first, so thread 0's
+    level-0 CAS fails, it re-reads, advances past 3 and links behind it, then links level 1; the
+    seek, begun on the empty list, ends on 5.  Both keys are linked and returned, level 1 is a
+    sub-chain of level 0. -/
+example :
+    let s0 := callSeek (callInsert (callInsert (init 2 3) 0 5 2) 1 3 1) 2 4
+    let s := [0, 0, 0, 0, 1, 1, 1, 1, 1, 2, 0, 0, 0, 0, 0, 2, 0, 0, 2].foldl step s0
+    s.inserted = [5, 3] ∧ s.returned = [5, 3] ∧ (chain s 0).map (mkey s.heap) = [3, 5] ∧
+      (chain s 1).map (mkey s.heap) = [5] ∧ ((th s 2).pos.map (mkey s.heap)) = some 5 ∧ chainsOk s = true := by
+  decide
+
+/-- … and that run is a `Reach` run (so the hypotheses of the theorems above are satisfiable) -/
+example : Reach (step (callSeek (callInsert (callInsert (init 2 3) 0 5 2) 1 3 1) 2 4) 0) :=
+  .step 0 (.seek 2 4 (.insert 1 3 1 (.insert 0 5 2 (.init 2 3 (by decide)) (insertOk_sound (by decide)))
+    (insertOk_sound (by decide))))
+
+/-- `MAX_HEIGHT` of the default instantiation is the source's -/
+example : Reach (init defaultMaxHeight 4) := .init _ _ (by decide)
+end skipml
+
+/-! ## skiplist, level 0 on its own -/
+section skip0
+open Blue.SkipList
+
+/-- `level0_sorted_complete`: in every reachable state a level-0 walk from the head yields a
+    strictly increasing list of exactly the linked keys -/
+theorem level0_sorted_complete {s : St} (h : Reach s) :
+    ∃ (ids : List Nat) (h0 : Node), s.heap[0]? = some h0 ∧
+      walk s.heap (ids.length + 1) h0.next = ids.map (keyOf s.heap) ∧
+      (ids.map (keyOf s.heap)).Pairwise (· < ·) ∧
+      ∀ k, k ∈ s.inserted ↔ k ∈ ids.map (keyOf s.heap) :=
+  reach_walk h
+
+/-- published nodes stay published and keep their keys: a search's "I stand on a published node
+    before the key" survives every step of every other thread -/
+theorem published_stable {s : St} {x : Nat} (h : Published s x) (i : Nat) :
+    Published (step s i) x ∧ keyOf (step s i).heap x = keyOf s.heap x :=
+  Blue.SkipList.published_stable h i
+end skip0
+
+/-! ## prepend-only list -/
+section list
+open Blue.ListFree
+variable {D : Type}
+
+/-- `listfree_prepend`: after any schedule of any number of prepending threads the chain from the
+    head is exactly the data whose CAS succeeded, newest first, each once; and an iteration
+    started at any published pointer walks exactly that chain -/
+theorem listfree_prepend (evs : List (Ev D)) :
+    ∃ ids, Chain (evs.foldl apply (init : St D)).heap (evs.foldl apply (init : St D)).head ids
+        (evs.foldl apply (init : St D)).pushed ∧
+      walk (evs.foldl apply (init : St D)).heap (ids.length + 1) (evs.foldl apply (init : St D)).head
+        = (evs.foldl apply (init : St D)).pushed :=
+  run_contents evs
+
+/-- non-vacuity: two threads prepend 1 and 2; both read the empty head, thread 1 links first,
+    thread 0's CAS fails and it retries: the list is 1, 2 (newest first) -/
+example :
+    let s := ([.call 0 1, .call 1 2, .step 0, .step 1, .step 0, .step 1, .step 0, .step 1, .step 1, .step 0,
+      .step 0, .step 0, .step 0] : List (Ev Nat)).foldl apply init
+    s.pushed = [1, 2] ∧ walk s.heap 3 s.head = [1, 2] := by
+  decide
+end list
+
+/-! ## an iterator remains valid for as long as it is held (repaired ownership, D-4) -/
+section life
+open Blue.SkipLife
+
+/-- while a handle (the list or any iterator) is held, no node has been released -/
+theorem iterator_keeps_nodes_alive (s : St) (j : Nat) (h : held s j = true) : live s = s.nodes :=
+  held_live s j h
+
+/-- nodes are released exactly when the last holder (list or iterator) is gone -/
+theorem nodes_released_with_last_holder (s : St) : live s = 0 ↔ (holders s = 0 ∨ s.nodes = 0) :=
+  released_iff s
+
+/-- non-vacuity: the list is dropped while an iterator is held, the iterator is used, then dropped:
+    the nodes are alive until the last holder is gone -/
+example : ([Op.insert, .insert, .iter, .dropList, .use 0, .dropIter 0].foldl
+    (fun (acc : Option St × List Nat) op => match acc.1.bind (step · op) with
+      | some s' => (some s', acc.2 ++ [live s'])
+      | none => (none, acc.2)) (some {}, [])).2 = [2, 3, 3, 3, 3, 0] := by
+  decide
+end life
+
+end Blue.Props.C17
+
+#print axioms Blue.Props.C17.upper_levels_are_subchains
+#print axioms Blue.Props.C17.returned_insert_is_linked
+#print axioms Blue.Props.C17.linked_stays_linked
+#print axioms Blue.Props.C17.no_assertion_fires
+#print axioms Blue.Props.C17.iterator_moves_seek
+#print axioms Blue.Props.C17.iterator_moves_next
+#print axioms Blue.Props.C17.iterator_moves_prev
+#print axioms Blue.Props.C17.iterator_moves_last
+#print axioms Blue.Props.C17.iterator_on_chain
+#print axioms Blue.Props.C17.insertOk_sound
+#print axioms Blue.Props.C17.level0_sorted_complete
+#print axioms Blue.Props.C17.published_stable
+#print axioms Blue.Props.C17.listfree_prepend
+#print axioms Blue.Props.C17.iterator_keeps_nodes_alive
+#print axioms Blue.Props.C17.nodes_released_with_last_holder
+#print axioms Blue.ConstsTie.skipfree_default_max_height
